@@ -1,0 +1,94 @@
+//go:build verif
+
+// Contracts for govc (/verif): C14 "Aggregate transaction signatures are sound and bound to their signer set"
+// (structural layer: index/range/nil safety and the error conditions; the group arithmetic is not interpreted).
+// collectAggregateSigners / aggregatePublicKey are shared with C13 and C09 (CoSi verification uses them).
+// Comment-only file.
+
+package crypto
+
+//@ -- the signer list is non-empty, strictly increasing, inside the key vector, and selects non-nil keys
+//@ spec SignersOK(publics []*Key, signers []int) bool = len(signers) > 0 &&
+//@     (forall i int :: 0 <= i && i < len(signers) ==> 0 <= signers[i] && signers[i] < len(publics) && publics[signers[i]] != nil) &&
+//@     (forall i int :: 0 < i && i < len(signers) ==> signers[i-1] < signers[i])
+
+//@ -- explicit frame facts about the caller-owned signer list and key vector (redundant with the verified `modifies nothing`
+//@ -- frames below; kept because they are cheap and robust for callers)
+//@ spec SameInts(s []int) bool = forall i int :: 0 <= i && i < len(s) ==> s[i] == old(s[i])
+//@ spec SameKeys(p []*Key) bool = forall i int :: 0 <= i && i < len(p) ==> p[i] == old(p[i])
+
+//@ -- decodePoint, (*Key).VerifyWithChallenge: assumed contracts in zz_contracts_c13_verif.go; (*Key).Verify: zz_contracts_c30_verif.go
+
+//@ func collectAggregateSigners
+//@   property C14, C13, C09
+//@   modifies nothing
+//@   ensures [ok] err == nil ==> SignersOK(publics, signers) && len(result0) == len(signers) && len(result1) == 4 + 36 * len(signers) &&
+//@       (forall i int :: 0 <= i && i < len(signers) ==> result0[i].index == signers[i] && result0[i].public == publics[signers[i]] && result0[i].point != nil)
+//@   ensures [fail] err != nil ==> isnil(result0) && isnil(result1)
+//@   ensures [frame] SameInts(signers) && SameKeys(publics)
+//@   loop 0 invariant fresh(selected) && fresh(transcript)
+//@   loop 0 invariant len(selected) == rangeindex + 1 && len(transcript) == 4 + 36 * (rangeindex + 1) && 0 - 1 <= prev
+//@   loop 0 invariant rangeindex >= 0 ==> prev == signers[rangeindex]
+//@   loop 0 invariant rangeindex < 0 ==> prev == 0 - 1
+//@   loop 0 invariant forall i int :: 0 <= i && i <= rangeindex ==> 0 <= signers[i] && signers[i] < len(publics) && publics[signers[i]] != nil
+//@   loop 0 invariant forall i int :: 0 < i && i <= rangeindex ==> signers[i-1] < signers[i]
+//@   loop 0 invariant forall i int :: 0 <= i && i <= rangeindex ==> selected[i].index == signers[i] && selected[i].public == publics[signers[i]] && selected[i].point != nil
+
+//@ func aggregateCoefficient
+//@   property C14
+//@   modifies nothing
+//@   requires signer.public != nil
+//@   ensures err == nil ==> result0 != nil
+//@   ensures err != nil ==> result0 == nil
+
+//@ func aggregateChallenge
+//@   property C14
+//@   modifies nothing
+//@   ensures err == nil ==> result0 != nil
+//@   ensures err != nil ==> result0 == nil
+
+//@ func aggregatePublicKey
+//@   property C13, C09, C14
+//@   modifies nothing
+//@   ensures [ok] err == nil ==> result0 != nil && fresh(result0) && SignersOK(publics, signers)
+//@   ensures [fail] err != nil ==> result0 == nil
+//@   ensures [frame] SameInts(signers) && SameKeys(publics)
+//@   loop 0 invariant P != nil && fresh(P) && (forall i int :: 0 <= i && i < len(selected) ==> selected[i].point != nil)
+
+//@ func aggregateWeightedPublicKey
+//@   property C14
+//@   modifies nothing
+//@   ensures [ok] err == nil ==> SignersOK(publics, signers) && len(result1) == len(signers) &&
+//@       (forall i int :: 0 <= i && i < len(result1) ==> result1[i] != nil)
+//@   ensures [fail] err != nil ==> isnil(result1) && isnil(result2)
+//@   ensures [frame] SameInts(signers) && SameKeys(publics)
+//@   loop 0 invariant fresh(P) && fresh(coefficients)
+//@   loop 0 invariant P != nil && len(coefficients) == rangeindex + 1 && (forall i int :: 0 <= i && i < len(coefficients) ==> coefficients[i] != nil)
+//@   loop 0 invariant forall i int :: 0 <= i && i < len(selected) ==> selected[i].point != nil && selected[i].public != nil
+
+//@ func AggregateSign
+//@   property C14
+//@   modifies nothing
+//@   ensures [ok] err == nil ==> result0 != nil && len(privKeys) == len(signers) && len(seed) >= 32 && SignersOK(publics, signers) &&
+//@       (forall i int :: 0 <= i && i < len(signers) ==> signers[i] <= 65535 && privKeys[i] != nil)
+//@   ensures [fail] err != nil ==> result0 == nil
+//@   loop 0 invariant fresh(P) && fresh(randoms) && fresh(privateScalars)
+//@   loop 0 invariant P != nil && len(randoms) == rangeindex + 1 && len(privateScalars) == rangeindex + 1
+//@   loop 0 invariant [keys] forall i int :: 0 <= i && i <= rangeindex ==> signers[i] <= 65535 && privKeys[i] != nil
+//@   loop 0 invariant [randoms] forall i int :: 0 <= i && i <= rangeindex ==> randoms[i] != nil
+//@   loop 0 invariant [privs] forall i int :: 0 <= i && i <= rangeindex ==> privateScalars[i] != nil
+//@   loop 0 invariant [coeffs] len(coefficients) == len(signers) && (forall i int :: 0 <= i && i < len(coefficients) ==> coefficients[i] != nil)
+//@   loop 0 invariant [caps] cap(randoms) >= len(signers) && cap(privateScalars) >= len(signers)
+//@   loop 0 invariant [disjoint] arr(randoms) != arr(coefficients) && arr(privateScalars) != arr(coefficients) && arr(randoms) != arr(privateScalars)
+//@   loop 1 invariant S != nil && fresh(S)
+//@ -- SetUniformBytes cannot fail on the 64-byte nonce digest: its error return is dead code
+//@   unreachable return@18
+
+//@ -- NOT covered (algebraic / cryptographic layer): a produced signature verifies (completeness), the weighted key is a function of
+//@ -- the transcript (binding to count, indexes and keys), and unforgeability for a larger signer set. In AggregateSign the check
+//@ -- `private.Public() == *publics[signer]` is not restated as a postcondition either: the loop writes byte buffers and govc
+//@ -- cannot keep byte-content facts about caller memory across the loop without a byte-level invariant about every key.
+//@ func AggregateVerify
+//@   property C14
+//@   modifies nothing
+//@   ensures [ok] result == nil ==> sig != nil && SignersOK(publics, signers)
